@@ -226,6 +226,58 @@ def malformed(ctx):
     ctx.sample(dict(kind="malformed", case=cfg))
 
 
+def coalesced(ctx):
+    """the decision block may arrive in one packet together with the peer's first Banana traffic, however much there
+    is of it: the outcome must not depend on that (regression: the 4096-byte header limit used to count it)"""
+    with quiet():
+        for nrefs in (5, 45, 60, 120):
+            for a_high in (False, True):
+                for merge in (False, True):
+                    E.reset_clock()
+                    net = Net()
+                    (lo_id, lo_pem), (hi_id, hi_pem) = pems_sorted(2)
+                    pa, pb_ = (hi_pem, lo_pem) if a_high else (lo_pem, hi_pem)
+                    A = make_tub(net, "a", pa)
+                    B = make_tub(net, "b", pb_)
+                    furls = [A.registerReference(T()) for i in range(nrefs)]
+                    res = []
+                    for f in furls:
+                        B.getReference(f).addBoth(res.append)
+                    E.turn()
+                    steps = 0
+                    while steps < 20000:
+                        steps += 1
+                        c = net.deliverable()
+                        if not c:
+                            break
+                        l, what = c[0]
+                        if merge and not isinstance(what, tuple):
+                            q = l.q[what]
+                            merged = b""
+                            while q and q[0] is not None:
+                                merged += q.pop(0)
+                            if merged:
+                                q.insert(0, merged)
+                        net.step((l, what))
+                    for i in range(3):
+                        if len(res) == nrefs:
+                            break
+                        E.clock.advance(130)
+                        E.turn()
+                        net.run()
+                    good = sum(1 for x in res if type(x).__name__ == "RemoteReference")
+                    ctx.case(["coalesced", nrefs, a_high, merge], nontrivial=True)
+                    ctx.hist("coalesced", "merged" if merge else "separate")
+                    if good != nrefs or len(res) != nrefs:
+                        ctx.fail("oracle/packetisation-changes-outcome",
+                                 "%d getReference calls queued behind the negotiation: %d succeeded (%d fired) when the peer's "
+                                 "early traffic %s delivered together with its decision block" % (nrefs, good, len(res), "was" if merge else "was not"),
+                                 replay=dict(nrefs=nrefs, a_high=a_high, merge=merge))
+                    for t in (A, B):
+                        t.stopService()
+                    E.turn()
+
+
 def trial_then_retry(r, a_high, mangle):
     E.reset_clock()
     net = Net()
